@@ -1,8 +1,8 @@
 #!/verif/.venv/bin/python
 # Replay of a solver counterexample against the unmodified code (no shims).
-# property=C17 kernel=results label=k4:results_same_instances
+# property=C17 kernel=config label=k3:config_roundtrip_completes
 import sys
 sys.path[:0] = ['/repo' + "/pulser-core", '/repo' + "/pulser-simulation", "/verif"]
 from symx.replay import replay
-sys.exit(replay(check='checks.c17', kernel='results', shape={'n_obs': 3, 'tags': ['energy', 'occupation', 'energy'], 'n_times': 1},
-                assignment={'total_duration': 1, 't0_0': '1/1024', 'v0_0': '0/1', 't1_0': '1/1024', 'v1_0': '0/1', 't2_0': '1/1024', 'v2_0': '0/1'}, label='k4:results_same_instances'))
+sys.exit(replay(check='checks.c17', kernel='config', shape={'obs': ['bitstrings'], 'times': [True], 'noise': 'eff'},
+                assignment={'o0_t0': '0/1', 'o0_t1': '1/2', 'eff_rate': '1152921504606847/1152921504606846976'}, label='k3:config_roundtrip_completes'))
